@@ -631,7 +631,7 @@ def run(ctx):
     if not have:
         ctx.notes.append('icontract unavailable: class invariant not installed')
     check_n_cond(ctx)
-    n = ctx.n(150, 500)
+    n = ctx.n(150, 1500)
     length = 12 if ctx.tier == 'quick' else 25
     for it in range(n):
         if ctx.out_of_time():
